@@ -33,7 +33,7 @@ pub const RULE: &str = "generator: 64x64 GF(2) step matrix read off next_bits on
 exact order certificate T^(2^64-1)=I, T^((2^64-1)/p)!=I for p in {3,5,17,257,641,65537,6700417}; independent inverse step vs real step; equal seeds. \
 uniform-f32: every one of the 2^23 mantissas (state built with the inverse step so that the next output's bits 41..63 equal the mantissa) x a family of ranges \
 (fixed: unit, symmetric, offset, tiny, negative, subnormal, huge; plus seed-derived ranges per class). Non-trivial = (mantissa, range) pair where unit*(hi-lo)+lo is not exactly \
-representable (the f32 computation rounds); each pair is visited once. bernoulli: all 2^23 mantissas x edge probabilities. uniform-i32: generated ranges with representable width x chosen low-32-bit patterns \
+representable (the f32 computation rounds); each pair is visited once. bernoulli: all 2^23 mantissas x edge probabilities. edge-outputs: ~600 output words structured in all 64 bits (runs of ones from either end, single bits, complements, top-k ones over random low bits) x every edge probability / fixed range. uniform-i32: generated ranges with representable width x chosen low-32-bit patterns \
 (0, -1, MIN, MAX, multiples of the width +-1, random); non-trivial = distinct (range, bits). unit-shapes: random states and states built (GF(2) solve) so that the first 2-3 draws are a chosen point \
 (on/near the unit circle or sphere, axes, corners, near the origin); non-trivial = distinct state. composite: array/vector/point/tuple distributions vs sequential component sampling from a cloned generator; non-trivial = distinct case with >= 2 components.";
 
@@ -737,6 +737,13 @@ fn fixed_ranges() -> Vec<(f32, f32, &'static str)> {
         (0.0, sub, "subnormal"),
         (f32::from_bits(5), f32::from_bits(12), "subnormal"),
         (-1.0e-40, 1.0e-40, "subnormal"),
+        (-1.0e-40, 0.0, "subnormal"),
+        (-sub, 0.0, "subnormal"),
+        (-f32::from_bits(3), 0.0, "subnormal"),
+        (-f32::MIN_POSITIVE, 0.0, "subnormal"),
+        (-sub, -0.0, "subnormal"),
+        (-f32::from_bits(7), sub, "subnormal"),
+        (-1.0e-30, 0.0, "zero-based"),
         (1.0e30, 2.0e30, "huge"),
         (-1.0e38, 1.0e38, "huge"),
         (0.0, f32::MAX, "huge"),
@@ -747,7 +754,17 @@ fn fixed_ranges() -> Vec<(f32, f32, &'static str)> {
 fn generated_range(sm: &mut Sm) -> (f32, f32, &'static str) {
     loop {
         let sign = if sm.below(2) == 0 { 1.0f32 } else { -1.0 };
-        let r = match sm.below(7) {
+        let r = match sm.below(8) {
+            7 => {
+                // zero-based with a subnormal or tiny magnitude (the bound is +0, -0 or the magnitude itself)
+                let a = if sm.below(2) == 0 { f32::from_bits(1 + sm.below(1 << 23) as u32) } else { 10f64.powf(sm.range(-44.0, -30.0)) as f32 };
+                let a = if a > 0.0 { a } else { f32::from_bits(1) };
+                match sm.below(3) {
+                    0 => (0.0, a, "subnormal"),
+                    1 => (-a, 0.0, "subnormal"),
+                    _ => (-a, -0.0, "subnormal"),
+                }
+            }
             0 => {
                 // offset far from zero, moderate width
                 let lo = sign * 10f64.powf(sm.range(0.0, 7.0)) as f32;
@@ -1043,6 +1060,71 @@ fn run_bernoulli(cx: &mut Ctx, exhaustive: bool, dep: Deposit) {
                 obs.sample(|| json!({"p": jf(p), "mantissa": 0, "expected": p >= 1.0}));
             }
         }
+        Ok(())
+    });
+}
+
+// ================================================================== structured output words
+
+/// Output words with structure in *all* 64 bits (not only in the 23 bits the float sample was found to consume):
+/// runs of ones from either end, single bits and their complements, alternating patterns, and runs of ones at the top
+/// over random low bits. A sample that compares some prefix of the word against a threshold meets its extremes here.
+fn edge_words(seed: u64) -> Vec<u64> {
+    let mut v = vec![u64::MAX, 0xAAAA_AAAA_AAAA_AAAA, 0x5555_5555_5555_5555, 0xFFFF_FFFF_0000_0000, 0x0000_0000_FFFF_FFFF, 0x8000_0000_0000_0001];
+    for k in 1..64u32 {
+        v.push(u64::MAX << k); // top 64-k bits set
+        v.push(u64::MAX >> k); // low 64-k bits set
+        v.push(1u64 << k);
+        v.push(!(1u64 << k));
+    }
+    v.push(1);
+    v.push(!1);
+    let mut sm = Sm(derive_seed(seed, "C19", "edge-words", 0));
+    for k in [9u32, 23, 24, 31, 32, 33, 40, 41, 52, 53, 63] {
+        for _ in 0..8 {
+            let r = sm.next();
+            v.push((u64::MAX << (64 - k)) | (r >> k)); // top k ones, random below
+            v.push(r >> k | 0); // top k zeros, random below
+            v.push((r << k) | (u64::MAX >> (64 - k))); // low k ones
+        }
+    }
+    v.retain(|y| *y != 0);
+    v.sort_unstable();
+    v.dedup();
+    v
+}
+
+fn run_edge_outputs(cx: &mut Ctx) {
+    let words = edge_words(cx.seed);
+    let bern = bern_family(true);
+    let fam = fixed_ranges();
+    let n = words.len() as u64;
+    let (wr, br, fr) = (&words, &bern, &fam);
+    cx.enum_check("bernoulli-edge-outputs", n, false, move |i, obs| {
+        let y = wr[i as usize];
+        let state = state_before(y);
+        for &p in br.iter() {
+            let c = BernCase { p: X(p), mantissa: ((y >> 41) & 0x7f_ffff) as u32, state };
+            if let Err(f) = check_bern(&c) {
+                return Err((c, f));
+            }
+        }
+        obs.evals_n(br.len() as u64 - 1);
+        obs.nontrivial_enumerated(br.len() as u64);
+        obs.class(if y >> 32 == 0xffff_ffff { "next output: top 32 bits all ones" } else if y >> 41 == 0x7f_ffff { "next output: top 23 bits all ones" } else { "next output: other structured word" });
+        Ok(())
+    });
+    cx.enum_check("uniform-f32-edge-outputs", n, false, move |i, obs| {
+        let y = wr[i as usize];
+        let state = state_before(y);
+        for &(lo, hi, class) in fr.iter() {
+            let c = FloatCase { lo: X(lo), hi: X(hi), mantissa: ((y >> 41) & 0x7f_ffff) as u32, state, class: class.to_string() };
+            if let Err(f) = check_float(&c) {
+                return Err((c, f));
+            }
+        }
+        obs.evals_n(fr.len() as u64 - 1);
+        obs.nontrivial_enumerated(fr.len() as u64);
         Ok(())
     });
 }
@@ -1763,6 +1845,9 @@ pub fn run(cx: &mut Ctx) {
     }
     run_uniform_f32(cx, exhaustive, dep);
     run_bernoulli(cx, exhaustive, dep);
+    if info.inverse_ok {
+        run_edge_outputs(cx);
+    }
     let _ = di;
     let n = cx.n(1_000_000, 40_000_000);
     cx.prop_check("uniform-i32", n, int_case, |c, obs| check_int(c, obs));
@@ -1785,8 +1870,8 @@ pub fn replay(sub: &str, case: &Value) -> Check {
     }
     match sub {
         "order-certificate" | "generator-counterexample" | "inverse-step" | "seeding" | "linearity" => check_gen_case(&de::<GenCase>(case)?),
-        "uniform-f32" => check_float(&de::<FloatCase>(case)?).map(|_| ()),
-        "bernoulli" => check_bern(&de::<BernCase>(case)?),
+        "uniform-f32" | "uniform-f32-edge-outputs" => check_float(&de::<FloatCase>(case)?).map(|_| ()),
+        "bernoulli" | "bernoulli-edge-outputs" => check_bern(&de::<BernCase>(case)?),
         "uniform-i32" => check_int(&de::<IntCase>(case)?, &mut obs),
         "unit-shapes" | "unit-zero-draw" => check_shape(&de::<ShapeCase>(case)?, &mut obs),
         "composite" => check_comp(&de::<CompCase>(case)?, &mut obs),
